@@ -8,7 +8,7 @@ oracle: the property predicate evaluated on the real class's observations (this 
         construction counting and injected failures (harness.cpp)"""
 import os
 
-GEN = ['gen_vertices.json', 'gen_ceil.json', 'gen_list.json']
+GEN = ['gen_vertices.json', 'gen_ceil.json', 'gen_list.json', 'gen_raw.json', 'gen_bits.json']
 M64 = (1 << 64) - 1
 # type index -> (size, alignment); harness.cpp checks sizeof / ItemTraits::GetAlignment / alignof against this table
 TYPES = {0: (1, 1), 1: (2, 2), 2: (4, 4), 3: (8, 8), 4: (3, 1), 5: (6, 2), 6: (12, 4), 7: (16, 16), 8: (16, 16),
@@ -362,8 +362,19 @@ def check_case(case, out):
         if segs[-1] != 'af ok':
             return 'allocation failure inside Add: ' + segs[-1], False
         segs = segs[:-1]
-    if len(segs) != len(ops) + 2:
+    if len(segs) != len(ops) + 3:
         return 'output has %d segments for %d ops' % (len(segs), len(ops)), False
+    # per-FuncRecord createFunc / destroyFunc counts of pvCreateRaw: completed -> every record created once, none destroyed;
+    # thrown -> exactly the created records are destroyed, each once
+    for sc in segs[-1][3:].split('|'):
+        w_ = sc.split(':', 1)[1].split() if ':' in sc else []
+        if not w_: continue
+        cs_ = w_[w_.index('c') + 1:w_.index('d')]; ds_ = w_[w_.index('d') + 1:]
+        if w_[0] == 'T' and (any(x != '1' for x in cs_) or any(x != '0' for x in ds_)):
+            return 'pvCreateRaw completed but createFunc/destroyFunc counts per record are %s / %s' % (cs_, ds_), False
+        if w_[0] == 'F' and (cs_ != ds_ or any(x not in ('0', '1') for x in cs_)):
+            return 'pvCreateRaw threw: records created %s but destroyed %s' % (cs_, ds_), False
+    segs = segs[:-1]
     if segs[-2] != 'raw ok':
         return 'raw create/import/destroy: ' + segs[-2], False
     # event traces: every instrumented item constructed at most once, and destroyed iff constructed
@@ -554,6 +565,7 @@ def measure(case, out, dist):
     else:
         named = sum(1 for s_ in case.split(' ; ') if s_.split() and s_.split()[0].lower() == 'a' and len(s_.split()) > 5 and s_.split()[-1] not in (';',) and not s_.split()[-1].isdigit())
         ck['string-hash (DataColumn(name))'] += named; ck['explicit 64-bit'] += max(0, ncols - named)
+    dist['function_record_scenarios_compared_with_generated_pvCreateRaw'] = dist.get('function_record_scenarios_compared_with_generated_pvCreateRaw', 0) + sum(x.count('|') + 1 for x in segs if x.startswith('fr '))
     ev = [x for x in segs if x.startswith('ev ')]
     if ev and ' C' in ev[0]:
         dist['histories_with_instrumented_items'] += 1
